@@ -47,6 +47,21 @@ theorem C14_repaired_accepts :
       | .ok _ => true | .error _ => false) = true := by
   decide +kernel
 
+/-- C08 (pinned): base rate (0,1) with conditionals [(1/2,1/4; u=1/4), vacuous]: the only informative
+    conditional has base rate 0 and `mbr` returns `some [NaN, NaN]`. -/
+theorem C08_pinned_mbr_nan :
+    (match Pinned.mbr (#v[q 0 1, q 1 1] : Tab (XQ .f64) 2)
+        #v[⟨#v[q 1 2, q 1 4], q 1 4⟩, ⟨#v[q 0 1, q 0 1], q 1 1⟩] with
+      | some ay => ay.toList.all XQ.isNaN | none => false) = true := by
+  decide +kernel
+
+/-- C08 (repaired model): the same table has no marginal base rate. -/
+theorem C08_repaired_mbr_none :
+    (match SLV.mbr (#v[q 0 1, q 1 1] : Tab (XQ .f64) 2)
+        #v[⟨#v[q 1 2, q 1 4], q 1 4⟩, ⟨#v[q 0 1, q 0 1], q 1 1⟩] with
+      | some _ => false | none => true) = true := by
+  decide +kernel
+
 /-! ### Floating-point witnesses (kernel evaluation of Lean's IEEE-754 model of `Float`) -/
 
 def fb (bits : UInt64) : Float := Float.ofBits bits
